@@ -303,6 +303,24 @@ def check_property(pid, tier, seed, do_freeze=False, verbose=True):
                 continue
             violations.append(f)
 
+    # A unit the verifier could not take after a change (front-end rejection, lost anchor, resource limit) leaves the
+    # property undecided by proof. The unit's directed search is still run on the REAL crate: an input that
+    # contradicts the statement is a violation with a replay; finding none leaves the verdict UNDECIDED (exit 2).
+    if undecided and not violations:
+        seen_units = []
+        for u, ud in undecided:
+            if u in seen_units or ud.get("reason") in ("vacuity-control",):
+                continue
+            seen_units.append(u)
+            w = find_witness(u, {"item": None, "kind": "undecided", "message": ud.get("message") or ud.get("reason")})
+            if w and w.get("found"):
+                f = {"unit": u, "item": "(not verifiable after the change)", "kind": "replayed-counterexample",
+                     "message": "unit %s could not be verified (%s); the directed search found an input that contradicts the statement"
+                                % (u, ud.get("message") or ud.get("reason")),
+                     "rendered": (ud.get("rendered") or ud.get("detail") or "")[:3000], "text": "", "src_file": None, "src_line": None}
+                f["key"] = "%s::unverifiable::replayed-counterexample" % u
+                f["_witness"] = w
+                violations.append(f)
     # known findings that no longer fail are simply not printed (fixed upstream or by a fix: commit)
     rc = 0
     lines = []
@@ -312,7 +330,7 @@ def check_property(pid, tier, seed, do_freeze=False, verbose=True):
     if undecided and not violations:
         rc = 2
     for f in violations:
-        w = find_witness(f["unit"], f)
+        w = f.pop("_witness", None) or find_witness(f["unit"], f)
         base = load_baseline(f["unit"])
         in_base = bool(base) and any((f.get("item") or "").split("::")[-1] in n for n in base["functions_ok"])
         reproduced = bool(w and w.get("found"))
@@ -322,6 +340,8 @@ def check_property(pid, tier, seed, do_freeze=False, verbose=True):
             undecided.append((f["unit"], {"reason": "failed-obligation-not-reproduced",
                                           "detail": "%s; exhaustive sweep of the real code found no failing input" % f["key"]}))
             continue
+        if f.get("kind") == "replayed-counterexample":
+            in_base = True
         if not in_base and not reproduced and base is not None:
             undecided.append((f["unit"], {"reason": "new-obligation-not-reproduced", "detail": f["key"]}))
             continue
